@@ -240,6 +240,9 @@ def driver_lines(seed, thorough):
     lines = []
     for i in range(16 if thorough else 3):
         lines.append("dev d%d %d %d %d" % (i, rnd.randrange(1, 1000), rnd.choice([2, 3, 4]), rnd.choice([5, 6, 8])))
+    # bursts of tag reports with a slow consumer that reads each event's content late (+ content equality)
+    for i in range(4 if thorough else 2):
+        lines.append("pub p%d %d %d %d %d" % (i, rnd.randrange(1, 1000), rnd.choice([6, 10]), rnd.choice([3, 4, 6]), rnd.choice([3, 5, 8])))
     c15 = ["1 DE Q X DE T", "0 DR DR DE U1 DE Q t", "1 DE U2 DE Q q X DR DR DE T", "1 DH DB DE Q t", "0 DE X DE X DE u1 DE T"]
     for i, s in enumerate(c15 if thorough else c15[:3]):
         lines.append("c15 %d %s" % (i + 1, s))
@@ -302,10 +305,12 @@ def attribute(rep, table, bad=()):
             if first is None:
                 first = (base, line, fn)
             if base.startswith("zz_verif_"):
-                break                         # the access is made by harness code
-            if base in tracked and path.endswith(tracked[base]):
+                break                         # the access is made by harness code (or reached through it)
+            if base in tracked and path.endswith(tracked[base]) and (base, line) in by_site:
                 hit = (base, line, fn)
-            break
+                break
+            # library code outside the table (generated decoders ...) or a line without an entry: the caller may
+            # be the site that handed the memory over (v passed to a function that writes through it)
         if first and not first[0].startswith("zz_verif_"):
             in_repo = True
         if hit:
@@ -461,7 +466,7 @@ def run(tier, seed, replay=None):
                       dict(kind="check-then-act", check_then_act=ct), found_input=False)
 
     bad = set(w1["bad"])
-    judged_frames = once_reps = 0
+    judged_frames = once_reps = events_compared = 0
     KINDS = {72: "KeepAliveAck", 14: "CloseConnection", 1023: "request"}
     evals = nontriv = nreports = 0
     dist, samples, seen_nt = {}, [], set()
@@ -501,7 +506,16 @@ def run(tier, seed, replay=None):
                                       "(id %d) stamped with version %d (scenario %s)" % (want, kd, fr["id"], fr["ver"], job[3]),
                                       dict(kind="stale-version", scenarios=[job[4]], frame=fr, want_version=want, answer=l[:1500]))
             except ValueError:
-                nt = nt or l.startswith("ok sends=") or " hs " in l or "REN" in l
+                nt = nt or l.startswith("ok sends=") or " hs " in l or "REN" in l or l.startswith("ok pub")
+                m = re.match(r"ok pub sent=(\d+) events=(\d+) intact=(\d+) corrupt=(\d+) duplicated=(\d+)", l)
+                if m:
+                    sent, nev, intact, corrupt, dup = map(int, m.groups())
+                    events_compared += nev
+                    if corrupt or dup:
+                        res.violation("event-content-changed:ROAccessReport", "tag reports published to the asynchronous channel do not have the content the "
+                                      "reader sent: %d of %d events corrupt (tags of different reports mixed / wrong count), %d duplicated — an event "
+                                      "already handed over is being overwritten while the consumer reads it (%s; scenario %s)"
+                                      % (corrupt, nev, dup, l[:200], job[3]), dict(kind="content", scenarios=[job[4]], answer=l))
         if nt and job[2] not in seen_nt:
             seen_nt.add(job[2])
             nontriv += 1
@@ -588,6 +602,6 @@ def run(tier, seed, replay=None):
                              "non-trivial iff the answer shows >= 2 goroutines of the library at work (keep-alives acknowledged, >= 2 caller "
                              "results, a handshake, or published events)",
                         samples=samples, input_distribution=dist, traces_validated_against_impl=evals,
-                        frames_version_judged=judged_frames, once_only_repetitions=once_reps, race_reports_parsed=nreports, race_fields={f: len(w) for f, w in witnesses.items()},
+                        frames_version_judged=judged_frames, once_only_repetitions=once_reps, published_events_compared=events_compared, race_reports_parsed=nreports, race_fields={f: len(w) for f, w in witnesses.items()},
                         crashes=len(crashes), trusted_base=res.assumptions)
     return res.finish()
